@@ -81,6 +81,27 @@ pub fn main(args: &util::Args) {
             Outcome::Panic(m) => writeln!(out, "{}\tPANIC\t{}", id, crate::sexp::esc_line(&m)).unwrap(),
         }
     }
+    // minimised past failures kept under /verif/corpus
+    for sub in ["C01", "C02", "C03", "C06", "C07", "C08", "C09"] {
+        let Ok(rd) = std::fs::read_dir(util::verif_root().join("corpus").join(sub)) else { continue };
+        let mut files: Vec<_> = rd.filter_map(|e| e.ok().map(|e| e.path())).filter(|p| p.extension().is_some_and(|x| x == "gom")).collect();
+        files.sort();
+        let dir = util::scratch_dir("c01c");
+        for f in files {
+            let Ok(src) = std::fs::read_to_string(&f) else { continue };
+            let id = format!("corpus:{}/{}", sub, f.file_name().unwrap().to_string_lossy());
+            match util::compile_text(&dir, &src) {
+                Outcome::Ok(c) => {
+                    writeln!(out, "{}\tEXPECT\tnone\t", id).unwrap();
+                    writeln!(out, "{}\tSRC\t{}", id, crate::sexp::esc_line(&src)).unwrap();
+                    dump_case(&id, &c, &mut out);
+                }
+                Outcome::Err(stage, msgs) => writeln!(out, "{}\tREJECT\t{}\t{}\t{}", id, stage, crate::sexp::esc_line(&msgs.join(" | ")), crate::sexp::esc_line(&src)).unwrap(),
+                Outcome::Panic(m) => writeln!(out, "{}\tPANIC\t{}\t{}", id, crate::sexp::esc_line(&m), crate::sexp::esc_line(&src)).unwrap(),
+            }
+        }
+        let _ = std::fs::remove_dir_all(&dir);
+    }
     // generated programs (G-prog)
     let total = args.n.unwrap_or(if args.tier == "thorough" { 3000 } else { 300 });
     let dir = util::scratch_dir("c01");
